@@ -16,6 +16,13 @@ from .state import HObj, State
 from .values import *  # noqa: F401,F403
 
 
+class PropertyFork(Exception):
+    """A @property whose body forks or may raise: the attribute access is executed as a call (several paths)."""
+
+    def __init__(self, func, name):
+        self.func, self.name = func, name
+
+
 class ClassSpec:
     """Sidecar description of a class under contract: field name -> type string; aliases between classes."""
 
@@ -101,10 +108,11 @@ def find_method(eng, cls, name, st):
 def h_inst_getattr(eng, st, ref, o, name):
     m = find_method(eng, o.cls, name, st) if isinstance(o.cls, type) or hasattr(o.cls, "node") else None
     if m is not None and getattr(m, "is_property", False):
-        r = eng.call(VFunc("bound", func=m, selfv=ref), [], {}, st)
-        if len(r) != 1 or isinstance(r[0][1], Raised):
-            raise Unsupported(f"property {name} forks or raises")
-        return r[0][1]
+        sc = st.clone()
+        r = eng.call(VFunc("bound", func=m, selfv=ref), [], {}, sc)
+        if len(r) != 1 or isinstance(r[0][1], Raised) or len(r[0][0].pc) != len(st.pc):
+            raise PropertyFork(VFunc("bound", func=m, selfv=ref), name)
+        return eng.call(VFunc("bound", func=m, selfv=ref), [], {}, st)[0][1]
     return None
 
 
